@@ -61,6 +61,18 @@ func genC08(fam string, seed uint64, cmd bool) *world.Scenario {
 			}
 			prog.Steps = append(prog.Steps, world.TempStep{T: sec(t), V: v})
 		}
+		if cmd && kernel.NewRand(seed, "c08.reader").Bool(0.6) {
+			// a second caller of the same sensor (a PID curve, a metrics scrape) whose command executions
+			// overlap the monitor's polls; readings stay well above zero so that a value pulled toward
+			// zero leaves the hull
+			sc.Params["reader"] = 1
+			// the command takes its time now and then (up to 1.2 virtual s): executions overlap
+			sc.SlowP, sc.SlowMx = 0.25, sec(1.2)
+			prog.Base = 20000 + abs(prog.Base)
+			for j := range prog.Steps {
+				prog.Steps[j].V = 20000 + abs(prog.Steps[j].V%200000)
+			}
+		}
 		s := world.SensorSpec{ID: fmt.Sprintf("s%d", i), Kind: kind, Prog: prog, Chip: chip, TempN: i + 1}
 		if kind == "cmd" && r.Bool(0.5) {
 			s.CmdFormat = "float"
@@ -100,6 +112,7 @@ type c08Sensor struct {
 	constAvg0  float64
 	reported   map[string]bool
 	execFault  string
+	otherFault string
 	polls      int
 	failedPoll int
 }
@@ -178,6 +191,24 @@ func (o *c08Oracle) OnEvent(ev *kernel.Event) {
 		default:
 			s.pollOK, s.pollVal = true, v
 		}
+	case ev.Kind == "exec" && ev.Flags&kernel.FSensorMon == 0 && ev.Err == "":
+		if tg := o.st.W.TargetOfExe(ev.Site); tg != nil && tg.Kind == "sensor" {
+			o.s[tg.ID].otherFault = ev.Fault
+		}
+	case ev.Kind == "yield" && ev.Site == "exec.start" && ev.Flags&kernel.FSensorMon == 0:
+		// a reading taken by another caller of the same sensor belongs to "all readings taken so far"
+		tg := o.st.W.TargetOfExe(ev.ID)
+		if tg == nil || tg.Kind != "sensor" {
+			return
+		}
+		s := o.s[tg.ID]
+		if s.otherFault == "" && ev.Err == "" {
+			if v, err := strconv.ParseFloat(strings.TrimSpace(ev.Out), 64); err == nil && !math.IsNaN(v) && !math.IsInf(v, 0) {
+				s.lo, s.hi = math.Min(s.lo, v), math.Max(s.hi, v)
+				o.res.Probe("readings-by-another-caller")
+			}
+		}
+		s.otherFault = ""
 	case ev.Kind == "yield" && (ev.Site == "mon.tick" || ev.Site == "mon.poll.end"):
 		s := o.s[ev.ID]
 		smp, ok := ev.Sample.(*c08Sample)
@@ -212,6 +243,13 @@ func (o *c08Oracle) judge(ev *kernel.Event, s *c08Sensor, avg float64) {
 		res.Violate("C08", clause, clause+" "+o.sigOf(s, why), ev.Seq, ev.T, format, a...)
 	}
 	if !s.pollSeen {
+		// the poll took no reading of its own (nothing the property says about it except the hull)
+		res.Probe("polls-without-own-reading")
+		tol := 1e-12 * math.Max(math.Abs(s.lo), math.Abs(s.hi))
+		if !(avg >= s.lo-tol && avg <= s.hi+tol) && !(math.IsNaN(avg) && math.IsNaN(s.prev)) {
+			report("hull", "no-reading-of-its-own", "sensor %s (%s): smoothed value %v outside [%v,%v] of initial value and readings so far after a poll that took no reading (poll #%d)", s.spec.ID, s.spec.Kind, avg, s.lo, s.hi, s.polls)
+		}
+		s.prev, s.constK = avg, 0
 		return
 	}
 	if !s.pollOK {
@@ -285,6 +323,19 @@ func runC08(t *testing.T, sc *world.Scenario) *check.Result {
 				return nil
 			}
 			return &c08Sample{Avg: s.GetMovingAvg()}
+		}
+		if sc.Params["reader"] > 0 {
+			st.OnBooted = func(st *stage.Stage) {
+				st.K.Go("reader", func() {
+					rr := kernel.NewRand(sc.Seed, "c08.reader.task")
+					for st.K.Now() < sc.Horizon.D() {
+						time.Sleep(time.Duration(rr.Range(20, 400)) * time.Millisecond)
+						for _, sn := range sc.Sensors {
+							_, _ = st.Sensors[sn.ID].GetValue()
+						}
+					}
+				})
+			}
 		}
 		return []Oracle{o}
 	})
